@@ -114,8 +114,8 @@ class GPSData(BytesInterface):
             else longitude
         )
         self.speed_knots: float = (
-            speed_knots
-            if isinstance(speed_knots, float)
+            float(speed_knots)
+            if isinstance(speed_knots, (int, float))
             else (
                 float(speed_knots.decode("ascii"))
                 if len(speed_knots.replace(b"\x00", b""))
